@@ -34,12 +34,15 @@ def truth_map(s, t0, t1):
     return {a[j]: b[j] for j in a if j in b}
 
 
-def random_series(rng, at0, nframes, kinds=("random", "affine", "flow"), frac=0.6, drop_border_cell=False):
-    """frames within the C12 motion bounds (re-evaluated on every consecutive pair)"""
+def random_series(rng, at0, nframes, kinds=("random", "affine", "flow"), frac=0.6, drop_border_cell=False, wide=False):
+    """frames within the C12 motion bounds (re-evaluated on every consecutive pair); wide=True: coherent fields (drift) that
+    use up to 85 % of the bounds (relevant for small tissues, where half the junction spacing exceeds 8 % of the extent)"""
     ats = [at0]
     for t in range(1, nframes):
         cur = ats[-1]
-        amp = series.amplitude(cur, frac=frac)
+        amp = series.amplitude(cur, frac=frac, wide=wide)
+        if wide:
+            kinds = ("drift", "drift", "affine")
         d = series.field(rng, cur, kinds[int(rng.integers(len(kinds)))], amp)
         nxt = series.moved(cur, d)
         ats.append(nxt)
